@@ -1,4 +1,5 @@
 (* C08 — reply discipline. Statements only; proofs in proto/FramesProofs.v. *)
+From Coq Require Import String.
 From Rend Require Import base.Bytes gen.Consts_gen spec.MapSpec orca.Types handlers.Std orca.Orcas
   proto.Resp proto.Frames proto.FramesSpec orca.OrcaSpec proto.FramesProofs.
 Open Scope N_scope.
@@ -39,9 +40,15 @@ Proof. exact text_stat. Qed.
    a get of n keys gets one value per hit, one not-found per non-quiet miss (binary), and
    exactly one terminator, which comes last (END; the no-op reply of a quiet batch; nothing
    when the batch ends in a plain get); a quiet request is silent on success. After any error
-   reply the connection stays open. *)
+   reply the connection stays open.
+   [req_wire_ok]: opaques fit 32 bits, text keys are text-safe, and no quiet request in text (the
+   text parser produces none and the text responder answers STORED regardless of quiet).
+   [store_wire_ok]: what the authoritative tier can serve fits the reply's wire fields (32-bit
+   flags and remaining TTL, value length + extras below 2^32); without it the length and flags
+   fields of a value frame wrap around. *)
 Theorem c08_discipline : forall p k lck now l1 l2 r,
   inv k now l1 l2 -> in_scope k r = true -> combo_ok p lck r = true -> req_wire_ok p r ->
+  store_wire_ok now (auth k l1 l2) ->
   let '(_, _, cs, c) := serve1 std_exec std_exec (orca_cfg k lck) r l1 l2 now in
   (exists fs, decode p (render_all p cs) = Some fs /\
               discipline p r (hits_of (auth k l1 l2) now r) (loud_misses_of (auth k l1 l2) now r) fs = true) /\
@@ -61,5 +68,6 @@ Example c08_nonvacuous :
   let r := RGet [mkGI [107] 1 true; mkGI [108] 2 false] 0 false in
   let l2 := upd empty_store [107] (Some (mkE [1; 2; 3] 5 Never)) in
   inv KL1L2 10 empty_store l2 /\ in_scope KL1L2 r = true /\ combo_ok Bin true r = true /\ req_wire_ok Bin r /\
+  store_wire_ok 10 (auth KL1L2 empty_store l2) /\
   hits_of l2 10 r = 1%nat /\ loud_misses_of l2 10 r = 1%nat.
 Proof. exact c08_example. Qed.
